@@ -8,27 +8,27 @@ open ESV ESV.Beh
 
 /-! ### positions in a placed piece -/
 
-theorem Placed.mid {rs : List (List LItem)} {r i0 : Nat} {pre mid post : List LItem} (h : Placed rs r i0 (pre ++ mid ++ post)) :
-    Placed rs r (i0 + pre.length) mid := h.left.right
+theorem Placed.mid {c : Copy} {rs : List (List LItem)} {r i0 : Nat} {pre mid post : List LItem} (h : Placed c rs r i0 (pre ++ mid ++ post)) :
+    Placed c rs r (i0 + pre.length) mid := h.left.right
 
-theorem Placed.here {rs : List (List LItem)} {r i0 : Nat} {pre post : List LItem} {x : LItem} (h : Placed rs r i0 (pre ++ x :: post)) :
-    itemAt rs ⟨r, i0 + pre.length⟩ = some x := h.item (d := pre.length) (by simp)
+theorem Placed.here {c : Copy} {rs : List (List LItem)} {r i0 : Nat} {pre post : List LItem} {x : LItem} (h : Placed c rs r i0 (pre ++ x :: post)) :
+    ItemC c rs ⟨r, i0 + pre.length⟩ x := h.item (d := pre.length) (by simp)
 
-theorem Placed.lbl {rs : List (List LItem)} (hn : (labelIds rs.flatten).Nodup) {r i0 : Nat} {pre post : List LItem} {l : Nat} {nm : Bool}
-    (h : Placed rs r i0 (pre ++ LItem.label l nm :: post)) : target rs l = ⟨r, i0 + pre.length⟩ :=
+theorem Placed.lbl {c : Copy} {rs : List (List LItem)} (hn : (labelIds rs.flatten).Nodup) {r i0 : Nat} {pre post : List LItem} {l : Nat} {nm : Bool}
+    (h : Placed c rs r i0 (pre ++ LItem.label l nm :: post)) : target rs (c.σ l) = ⟨r, i0 + pre.length⟩ :=
   h.resolve hn (d := pre.length) (nm := nm) (by simp)
 
-theorem Placed.here' {rs : List (List LItem)} {r i0 : Nat} {items : List LItem} (h : Placed rs r i0 items) (pre post : List LItem)
-    (x : LItem) (e : items = pre ++ x :: post) {q : Nat} (hq : q = i0 + pre.length) : itemAt rs ⟨r, q⟩ = some x := by
+theorem Placed.here' {c : Copy} {rs : List (List LItem)} {r i0 : Nat} {items : List LItem} (h : Placed c rs r i0 items) (pre post : List LItem)
+    (x : LItem) (e : items = pre ++ x :: post) {q : Nat} (hq : q = i0 + pre.length) : ItemC c rs ⟨r, q⟩ x := by
   subst e hq; exact h.here
 
-theorem Placed.lbl' {rs : List (List LItem)} (hn : (labelIds rs.flatten).Nodup) {r i0 : Nat} {items : List LItem}
-    (h : Placed rs r i0 items) (pre post : List LItem) (l : Nat) (nm : Bool) (e : items = pre ++ LItem.label l nm :: post) {q : Nat}
-    (hq : q = i0 + pre.length) : target rs l = ⟨r, q⟩ := by
+theorem Placed.lbl' {c : Copy} {rs : List (List LItem)} (hn : (labelIds rs.flatten).Nodup) {r i0 : Nat} {items : List LItem}
+    (h : Placed c rs r i0 items) (pre post : List LItem) (l : Nat) (nm : Bool) (e : items = pre ++ LItem.label l nm :: post) {q : Nat}
+    (hq : q = i0 + pre.length) : target rs (c.σ l) = ⟨r, q⟩ := by
   subst e hq; exact h.lbl hn
 
-theorem Placed.mid' {rs : List (List LItem)} {r i0 : Nat} {items : List LItem} (h : Placed rs r i0 items) (pre mid post : List LItem)
-    (e : items = pre ++ mid ++ post) {q : Nat} (hq : q = i0 + pre.length) : Placed rs r q mid := by
+theorem Placed.mid' {c : Copy} {rs : List (List LItem)} {r i0 : Nat} {items : List LItem} (h : Placed c rs r i0 items) (pre mid post : List LItem)
+    (e : items = pre ++ mid ++ post) {q : Nat} (hq : q = i0 + pre.length) : Placed c rs r q mid := by
   subst e hq; exact h.mid
 
 theorem LPos.next_eq (r i q : Nat) (h : q = i + 1) : (⟨r, i⟩ : LPos).next = ⟨r, q⟩ := by
@@ -71,7 +71,7 @@ theorem loneJump_two (x y : LItem) (l : List LItem) : loneJump (x :: y :: l) = n
 /-- one `Jump` to a label of the loop / case stack -/
 theorem exit_piece (cx : Cx) (o l : Nat) (s s' : St) (hs : SameStk s s') (env : Src.Env)
     (trf : Nat → Src.B → Src.B × Nat) (hgrow : ∀ k b, Grow cx.Z b (trf k b).1)
-    (hex : ∀ m j, ExitsOK cx m j s env → NamedIn cx s' → ∃ n, (∀ k b, trf k b = (b, n)) ∧ R2 cx m j (target cx.rs l) n) :
+    (hex : ∀ m j, ExitsOK cx m j s env → NamedIn cx s' → ∃ n, (∀ k b, trf k b = (b, n)) ∧ R2 cx m j (target cx.rs (cx.cp.σ l)) n) :
     PieceOK cx [.ljump ⟨o, Gen.op_jump, []⟩ (some l)] s s' trf env := by
   refine ⟨hs.1, hs.2, hs.3, ?_, ?_, ?_, ?_, hgrow, ?_⟩
   · simp [lastNotCtx, isCtxL]
@@ -83,7 +83,7 @@ theorem exit_piece (cx : Cx) (o l : Nat) (s s' : St) (hs : SameStk s s') (env : 
   · intro r i0 hp _ k b _ m j hx hin _
     obtain ⟨n, htr, hr⟩ := hex m j hx hin
     rw [htr]
-    have hit : itemAt cx.rs ⟨r, i0⟩ = some (.ljump ⟨o, Gen.op_jump, []⟩ (some l)) := by simpa using hp.item (d := 0) rfl
+    have hit : ItemC cx.cp cx.rs ⟨r, i0⟩ (.ljump ⟨o, Gen.op_jump, []⟩ (some l)) := by simpa using hp.item (d := 0) rfl
     exact ⟨R2.silL (lab_jump hit jump_isJump) hr, LabExport.same (fun _ _ => rfl)⟩
 
 theorem cont_pm (cx : Cx) (fuel : Nat) (env : Src.Env) : PM cx contStmt (fun k b => Src.tr fuel [] env .cont k b) env := by
@@ -171,15 +171,15 @@ theorem loop_block_shape {bodyM : M (List LItem)} {sa sc : St} {blk : Blk} (h : 
 /-- entering the block of a loop body runs the body; after it control is behind the block's end label -/
 theorem loop_body_run (cx : Cx) {ops : List LItem} {sa sb : St} {trB : Nat → Src.B → Src.B × Nat} {env' : Src.Env}
     (hB : PieceOK cx ops sa sb trB env') (sL eB : Nat) (tail : List LItem) {r ib : Nat}
-    (hp : Placed cx.rs r ib ([.label sL false] ++ ops ++ [.label eB false] ++ tail)) (k : Nat) (b : Src.B)
+    (hp : Placed cx.cp cx.rs r ib ([.label sL false] ++ ops ++ [.label eB false] ++ tail)) (k : Nat) (b : Src.B)
     (hag : AgreeOn cx.N cx.Z b (trB k b).1) (m j : Nat) (hex : ExitsOK cx m j sa env') (hin : NamedIn cx sb)
     (hafter : falls ops = true → R2 cx m j ⟨r, ib + ops.length + 2⟩ k) :
     R2 cx m j ⟨r, ib⟩ (trB k b).2 ∧ LabExport cx env' m j b (trB k b).1 := by
-  have hp' : Placed cx.rs r ib ([.label sL false] ++ ops ++ ([.label eB false] ++ tail)) := by
+  have hp' : Placed cx.cp cx.rs r ib ([.label sL false] ++ ops ++ ([.label eB false] ++ tail)) := by
     simpa [List.append_assoc] using hp
   have hafter' : falls ops = true → R2 cx m j ⟨r, ib + 1 + ops.length⟩ k := by
     intro hfo
-    have hit : itemAt cx.rs ⟨r, ib + 1 + ops.length⟩ = some (.label eB false) := by
+    have hit : ItemC cx.cp cx.rs ⟨r, ib + 1 + ops.length⟩ (.label eB false) := by
       have e0 : ib + 1 + ops.length = ib + ([LItem.label sL false] ++ ops).length := by simp; omega
       rw [e0]
       exact Placed.here (pre := [.label sL false] ++ ops) (x := .label eB false) (post := tail) (by simpa [List.append_assoc] using hp)
